@@ -125,6 +125,10 @@ def cases(tier, seed):
             out.append(dict(kind="nonstatio", dim=1 + n % 2, cap_t=ct, nstart_t=nt0, sel_t=st_, sample_t=smp_t, b_t=2, cap_x=cx,
                             nstart_x=nx0, sel_x=sx, sample_x=smp_x, b_x=2, start=start, every=1, iters=start + 6,
                             seed=sd + n, land=lands[n % 3], ret=("scalar", "vec")[n % 2]))
+    # the landscape given through a heterogeneous equation parameter (every third single-loss configuration)
+    for k, c in enumerate(out):
+        if k % 3 == 1:
+            c["het"] = True
     # refinement driven by a SYSTEM loss (two equations of opposite sign sharing one unknown)
     sysl, seen = [], {}
     for k, c in enumerate(out):
